@@ -494,12 +494,28 @@ PRECONDITIONS = [
     ("OverlayFs::do_create", "copy_node_up", [("Atomic::load(parent_node.whiteout, Relaxed)", False)], "nothing is created below a deleted directory"),
     ("OverlayFs::do_mknod", "copy_node_up", [("Atomic::load(parent_node.whiteout, Relaxed)", False)], "nothing is created below a deleted directory"),
     ("OverlayFs::do_symlink", "copy_node_up", [("Atomic::load(parent_node.whiteout, Relaxed)", False)], "nothing is created below a deleted directory"),
+    ("OverlayFs::do_mkdir", "from_raw_os_error:EEXIST", [("Atomic::load(some(OverlayFs::lookup_node_ignore_enoent(", False)], "an existing name is refused exactly when it is not a whiteout"),
+    ("OverlayFs::do_create", "from_raw_os_error:EEXIST", [("Atomic::load(some(OverlayFs::lookup_node_ignore_enoent(", False)], "an existing name is refused exactly when it is not a whiteout"),
+    ("OverlayFs::do_mknod", "from_raw_os_error:EEXIST", [("Atomic::load(some(OverlayFs::lookup_node_ignore_enoent(", False)], "an existing name is refused exactly when it is not a whiteout"),
+    ("OverlayFs::do_symlink", "from_raw_os_error:EEXIST", [("Atomic::load(some(OverlayFs::lookup_node_ignore_enoent(", False)], "an existing name is refused exactly when it is not a whiteout"),
+    ("OverlayFs::do_link", "from_raw_os_error:EEXIST", [("Atomic::load(some(OverlayFs::lookup_node_ignore_enoent(", False)], "an existing name is refused exactly when it is not a whiteout"),
+    ("OverlayFs::do_rm", "load_directory", [("dir", True)], "a directory's children are loaded before its emptiness is judged"),
+    ("OverlayFs::do_rm", "count_entries_and_whiteout", [("dir", True)], "emptiness is judged for directories"),
     ("OverlayFs::do_link", "copy_node_up", [("Atomic::load(src_node.whiteout, Relaxed)", False), ("Atomic::load(new_parent.whiteout, Relaxed)", False), ("utils::is_dir(OverlayInode::stat64(src_node, ctx)?)", False)],
      "a link is made from a live non-directory into a live directory"),
 ]
 
 
+def r7_load_before_count(ctx, F):
+    b = F.method(OFS, "do_rm")
+    ld = [c for c in live_calls(b) if c.name == "load_directory"]
+    ce = [c for c in live_calls(b) if c.name == "count_entries_and_whiteout"]
+    ctx.check("R7-preconditions", "OverlayFs::do_rm/load-before-count", len(ld) == 1 and len(ce) == 1 and b.dominates(ld[0].bb, ce[0].bb),
+              "do_rm must load the directory's children before counting them: an unloaded directory looks empty and is removed with its content", loc=b.loc())
+
+
 def r7_preconditions(ctx, F):
+    r7_load_before_count(ctx, F)
     """Polarity of the precondition tests in front of the overlay's modifying steps: each step runs exactly when its precondition
     holds (a negated test turns every legitimate call into a refusal, or the reverse, and the trees diverge at once)."""
     rule = "R7-preconditions"
@@ -514,7 +530,11 @@ def r7_preconditions(ctx, F):
             b = F.method(OFS if adt == "OverlayFs" else OIN, nm)
         ctx.fn_seen(b)
         v = vf.VF(b, inline_depth=0)
-        cs = [c for c in live_calls(b) if c.name == callee]
+        if ":" in callee:
+            cn, carg = callee.split(":")
+            cs = [c for c in live_calls(b) if c.name == cn and R(v.call_args(c)[0], b, v) == carg]
+        else:
+            cs = [c for c in live_calls(b) if c.name == callee]
         if not ctx.check(rule, "%s/%s/present" % (fn, callee), bool(cs), "%s no longer calls %s" % (fn, callee), loc=b.loc()):
             continue
         for (pref, truth) in need:
